@@ -612,15 +612,18 @@ class GMMMachine(BaseEstimator):
         if int(version_major) >= 1:
             if hdf5.attrs["writer_class"] != str(cls):
                 logger.warning(f"{hdf5.attrs['writer_class']} is not {cls}.")
-            if hdf5["trainer"] == "map" and ubm is None:
+            trainer = hdf5["trainer"][()]
+            if isinstance(trainer, bytes):
+                trainer = trainer.decode()
+            if trainer == "map" and ubm is None:
                 raise ValueError(
                     "The UBM is needed when loading a MAP machine."
                 )
             self = cls(
                 n_gaussians=hdf5["n_gaussians"][()],
-                trainer=hdf5["trainer"][()],
+                trainer=trainer,
                 ubm=ubm,
-                convergence_threshold=1e-5,
+                convergence_threshold=hdf5["convergence_threshold"][()],
                 max_fitting_steps=hdf5["max_fitting_steps"][()],
                 weights=hdf5["weights"][...],
                 k_means_trainer=None,
@@ -630,10 +633,11 @@ class GMMMachine(BaseEstimator):
             )
             gaussians_group = hdf5["gaussians"]
             self.means = gaussians_group["means"][...]
-            self.variances = gaussians_group["variances"][...]
+            # thresholds first: the variances setter clamps to the thresholds
             self.variance_thresholds = gaussians_group["variance_thresholds"][
                 ...
             ]
+            self.variances = gaussians_group["variances"][...]
         else:  # Legacy file version
             logger.info("Loading a legacy HDF5 machine file.")
             n_gaussians = hdf5["m_n_gaussians"][()][0]
@@ -650,15 +654,15 @@ class GMMMachine(BaseEstimator):
             weights = np.reshape(hdf5["m_weights"], (n_gaussians,))
             self = cls(n_gaussians=n_gaussians, ubm=ubm, weights=weights)
             self.means = np.array(g_means).reshape(n_gaussians, -1)
-            self.variances = np.array(g_variances).reshape(n_gaussians, -1)
             self.variance_thresholds = np.array(g_variance_thresholds).reshape(
                 n_gaussians, -1
             )
+            self.variances = np.array(g_variances).reshape(n_gaussians, -1)
         return self
 
     def load(self, hdf5):
         """Overwrites the current state with those in an `HDF5File` object."""
-        new_self = self.from_hdf5(hdf5)
+        new_self = self.from_hdf5(hdf5, ubm=self.ubm)
         self.__dict__.update(new_self.__dict__)
 
     def save(self, hdf5):
